@@ -20,11 +20,11 @@ EXPLANATION = (
 ASSUMPTIONS = [
     "index-changing operations use enumerated concrete sizes, margins, kernel sizes and ROI boxes (the code concretises Grid.size()); geometry stays symbolic",
     "an exception raised on a satisfiable path is reported as a violation ('operations succeed for every valid grid')",
-    "fp obligations: float32 round-to-nearest-even per scalar operation in program order, D = 1, no FMA",
+    "fp obligations (fp-downsample-*): terms rebuilt without re-association (RAW mode) and interpreted over IEEE binary32, round-to-nearest-even per scalar operation in program order, D = 1 (no matrix accumulation), concrete size, spacing in [0.25, 4], centre in [-16, 16]; z3 QF_FP (30 s) then the cvc5 binary on the same SMT-LIB text; a sat model is reported only if the real code raises the AssertionError in float32",
 ]
 BOUNDS = {
-    "quick": dict(D=[2, 3], sizes="int vars 2..4096 (resize/down/up); {2..9} otherwise", levels=[1, 2], chains=2),
-    "thorough": dict(D=[2, 3], sizes="int vars 2..4096; {2..17} otherwise", levels=[1, 2, 3], chains=3, fp="D=1 sizes from {2,3,4,5,8,9}"),
+    "quick": dict(D=[2, 3], sizes="int vars 2..4096 (resize/down/up); {2..9} otherwise", levels=[1, 2], chains=2, fp="D=1, size 5, 1 level"),
+    "thorough": dict(D=[2, 3], sizes="int vars 2..4096; {2..17} otherwise", levels=[1, 2, 3], chains=3, fp="D=1, (size, levels) in {(5,1),(6,2),(7,1),(12,2),(17,3)}"),
 }
 
 
@@ -236,6 +236,25 @@ def ob_cube_grid(ctx, D, a):
     ctx.eq(g2.spacing(), g.spacing(), "Cube.grid(shape=) == Cube.grid(size=)")
 
 
+def ob_fp_downsample(ctx, size, levels, a):
+    """Float32 mode: the internal `assert allclose(origin / extent)` of Grid._resize cannot fire from rounding alone.
+    1-D grid of concrete size, float32 centre and spacing symbolic; the recorded tolerance test is re-interpreted over
+    IEEE binary32 (QF_FP). A model is reported only if the real code raises the AssertionError in float32."""
+    import symtorch.terms as tm
+    from deepali.core.grid import Grid
+
+    tm.set_raw(True)
+    try:
+        s = ctx.reals("s", [0.75], ge=0.25, le=4.0, nice=(0.25, 4.0))
+        c = ctx.reals("c", [-3.5], ge=-16.0, le=16.0, nice=(-16.0, 16.0))
+        g = Grid(size=(size,), spacing=s, center=c, align_corners=a)
+        h = g.downsample(levels)
+        ctx.reach()
+        ctx.fp_asserts("core/grid.py:_resize", f"downsample({levels}) of a 1-D grid of size {size}: the internal allclose assertion holds in float32", timeout_s=150.0 if ctx.tier == "quick" else 600.0)
+    finally:
+        tm.set_raw(False)
+
+
 def obligations(tier: str, seed: int):
     obs = []
     for D in (2, 3):
@@ -288,4 +307,8 @@ def obligations(tier: str, seed: int):
             ]
         for k, ch in enumerate(chains):
             obs.append((f"chain-D{D}-{k}-" + "+".join(o[0] for o in ch), ob_index_chain, dict(D=D, a=bool(k % 2), sizes=sz, ops=ch)))
+    # float32 re-interpretation of the internal assertions of Grid._resize (QF_FP)
+    for size, levels in (((5, 1),) if tier == "quick" else ((5, 1), (6, 2), (7, 1), (12, 2), (17, 3))):
+        for a in (True, False):
+            obs.append((f"fp-downsample-{size}-L{levels}-ac{int(a)}", ob_fp_downsample, dict(size=size, levels=levels, a=a)))
     return obs
